@@ -25,6 +25,7 @@ def T(s):
 
 
 NONE = Tag('none')
+KNOWN_CPS = None    # code points of the character-class table sent to the driver (set by Driver.__init__)
 
 
 def enc(x):
@@ -39,6 +40,11 @@ def enc(x):
             return 'm%d' % (-x)
         return str(x)
     if isinstance(x, str):
+        if KNOWN_CPS is not None and not x.isascii():
+            for ch in x:
+                if ord(ch) not in KNOWN_CPS:
+                    # the driver would treat it as a caseless word character: a false alarm in the making
+                    raise ValueError('character outside the alphabet the driver was given: %r' % ch)
         return 'c' + '.'.join(str(ord(ch)) for ch in x)
     if isinstance(x, (list, tuple)):
         return '(' + ' '.join(enc(y) for y in x) + ')'
@@ -86,6 +92,8 @@ class Driver:
         if cls_rows is not None:
             r = self.call_many([(T('cls'), cls_rows)])
             assert r == [Tag('ok')], r
+            global KNOWN_CPS
+            KNOWN_CPS = set(range(128)) | set(row[0] for row in cls_rows)
         # self test of the wire format
         probe = [T('a'), 'x (y)\t ', [3, '', T('b')], -1]
         r = self.call_many([(T('echo'), probe)])
